@@ -3,6 +3,7 @@ package props
 // C04 — Marshal(Unmarshal(S)) reconstructs S.
 
 import (
+	"reflect"
 	"fmt"
 	"strings"
 
@@ -73,7 +74,8 @@ func eqRealStack(s stackage.Stack, n Node, path string) error {
 	if !s.IsInit() {
 		return fmt.Errorf("%s: not initialised", path)
 	}
-	if !strings.EqualFold(s.Kind(), n.Kind) {
+	// (Kind() reports a user-defined symbol in place of the word for non-LIST kinds)
+	if !strings.EqualFold(s.Kind(), n.Kind) && !(n.Symbol != "" && n.Kind != "LIST" && s.Kind() == n.Symbol) {
 		return fmt.Errorf("%s: Kind()=%s, want %s", path, s.Kind(), n.Kind)
 	}
 	if s.Len() != len(n.Elems) {
@@ -136,12 +138,12 @@ func eqSlices(a, b any, path string) error {
 			if !ok2 {
 				return fmt.Errorf("%s: Condition vs %T", path, b)
 			}
-			if err := ca.IsEqual(cb); err != nil {
+			if err := condStructEq(ca, cb); err != nil {
 				return fmt.Errorf("%s: passed-through Conditions differ: %v", path, err)
 			}
 			return nil
 		}
-		if a != b {
+		if !reflect.DeepEqual(a, b) {
 			return fmt.Errorf("%s: %#v vs %#v", path, a, b)
 		}
 		return nil
@@ -161,6 +163,50 @@ func eqSlices(a, b any, path string) error {
 		if err := eqSlices(sa[i], sb[i], fmt.Sprintf("%s[%d]", path, i)); err != nil {
 			return err
 		}
+	}
+	return nil
+}
+
+// condStructEq compares two real Conditions part by part through the getters only (no IsEqual: an
+// equality closure installed on a node must not decide what the harness sees).
+func condStructEq(a, b stackage.Condition) error {
+	if a.Keyword() != b.Keyword() {
+		return fmt.Errorf("keywords %q vs %q", a.Keyword(), b.Keyword())
+	}
+	oa, ob := a.Operator(), b.Operator()
+	if (oa == nil) != (ob == nil) || (oa != nil && (oa.String() != ob.String() || oa.Context() != ob.Context())) {
+		return fmt.Errorf("operators %v vs %v", oa, ob)
+	}
+	return exprStructEq(a.Expression(), b.Expression())
+}
+
+func exprStructEq(a, b any) error {
+	if ca, ok := stackage.ConvertCondition(a); ok && ca.IsInit() {
+		cb, ok2 := stackage.ConvertCondition(b)
+		if !ok2 {
+			return fmt.Errorf("Condition vs %T", b)
+		}
+		return condStructEq(ca, cb)
+	}
+	if sa, ok := stackage.ConvertStack(a); ok && sa.IsInit() {
+		sb, ok2 := stackage.ConvertStack(b)
+		if !ok2 {
+			return fmt.Errorf("Stack vs %T", b)
+		}
+		if sa.Kind() != sb.Kind() || sa.Len() != sb.Len() {
+			return fmt.Errorf("stacks %s/%d vs %s/%d", sa.Kind(), sa.Len(), sb.Kind(), sb.Len())
+		}
+		for i := 0; i < sa.Len(); i++ {
+			x, _ := sa.Index(i)
+			y, _ := sb.Index(i)
+			if err := exprStructEq(x, y); err != nil {
+				return fmt.Errorf("[%d]: %v", i, err)
+			}
+		}
+		return nil
+	}
+	if !reflect.DeepEqual(a, b) {
+		return fmt.Errorf("%#v vs %#v", a, b)
 	}
 	return nil
 }
@@ -275,7 +321,7 @@ func c04TreeGen(tier Tier) TreeGen {
 		Kinds: stackKinds,
 		Leaf:  func(t *rapid.T) Val { return genPrimVal(t, true, true) },
 		Conds: true, CondExprStack: true, CondExprCond: true, NotAsCondExpr: true,
-		NilLeaves: true, EmptyStacks: true, Caps: true, Ambient: true, WideRuns: true,
+		NilLeaves: true, EmptyStacks: true, Caps: true, IndexOpts: true, FIFOOpt: true, Options: true, Ambient: true, WideRuns: true, NoNestAfter: true, ReadOnlyNodes: true,
 	}
 	if tier.Thorough {
 		g.MaxDepth, g.MaxWidth, g.Budget = 5, 8, 55
